@@ -117,10 +117,17 @@ func (r routecmd) build() []string {
 }
 
 // validRouteAdd returns true if cmd is accepted by the route
-// command parser as exactly one 'route add' command.
+// command parser as exactly one 'route add' command which can
+// be applied to a routing table.
 func validRouteAdd(cmd string) bool {
 	defs, err := route.Parse(bytes.NewBufferString(cmd))
-	return err == nil && len(defs) == 1 && defs[0].Cmd == route.RouteAddCmd
+	if err != nil || len(defs) != 1 || defs[0].Cmd != route.RouteAddCmd {
+		return false
+	}
+	// building the table fails for paths which are not valid
+	// glob patterns and for targets which are not valid URLs
+	_, err = route.NewTable(bytes.NewBufferString(cmd))
+	return err == nil
 }
 
 // parseURLPrefixTag expects an input in the form of 'tag-host/path[ opts]'
